@@ -1,4 +1,4 @@
-package main
+package main_test
 
 // C06 — ELECTRE III respects dominance, equality and listing order.
 
